@@ -12,6 +12,9 @@ Behaviours of a target:
   talkhang    rsh peer answers, sends one line, keeps the connection open (needs -u)   -> "command timeout"
   chatty      local command (exec module) that prints a line every 0.2 s for ever (needs -u): when the deadline
               passes the worker is relaying output, not sitting in xpoll                -> "command timeout"
+  dies        local command (exec module) that prints a line and is then killed by a signal (SIGKILL, SIGSEGV)
+                                                                                        -> "... killed by signal N"
+  exits       local command (exec module) that prints a line and exits with status 3    -> "... exited with exit code 3"
 """
 import concurrent.futures
 import os
@@ -172,6 +175,7 @@ def make_helper(ctx):
     helper = os.path.join(ctx.scratch, "c07exec.sh")
     with open(helper, "w") as f:
         f.write("#!/bin/sh\ncase $1 in\n c*) while :; do echo x-$1; sleep 0.2; done;;\n"
+                " d0*) echo x-$1; kill -9 $$;;\n d1*) echo x-$1; kill -SEGV $$;;\n x*) echo x-$1; exit 3;;\n"
                 " i*) trap '' TERM; echo x-$1; sleep %d;;\n z*) exec <&- >&- 2>&-; sleep %d;;\n"
                 " *) echo out-$1;;\nesac\n" % (IMMORTAL_LIFE, IMMORTAL_LIFE))
     os.chmod(helper, 0o755)
@@ -222,13 +226,14 @@ def pinned_cases(net=NET):
     room for everybody; then the faulty host FIRST / LAST with fanout 1 (the healthy ones queue behind it / it queues
     behind them), -t only, -u only (connect timeout left at a value no fault needs), both."""
     first = {"hang": addrs(net, "shimmed")[0], "refuse": addrs(net, "shimmed")[3], "mute": addrs(net, "mute")[0],
-             "talkhang": addrs(net, "talkhang")[0], "blackhole": addrs(net, "blackhole")[0], "chatty": "c0"}
+             "talkhang": addrs(net, "talkhang")[0], "blackhole": addrs(net, "blackhole")[0], "chatty": "c0",
+             "dies": "d00", "dies-segv": "d10", "exits": "x0"}
     talk = addrs(net, "talk")
     out = []
 
     def add(kind, ct, ut, fan, pos):
         healthy = [("e0", "exec"), (talk[len(out) % len(talk)], "talk"), ("e1", "exec")]
-        bad = (first[kind], kind)
+        bad = (first[kind], "dies" if kind.startswith("dies") else kind)
         hosts = [bad] + healthy if pos == "first" else healthy + [bad] if pos == "last" else healthy[:1] + [bad] + healthy[1:]
         i = len(out)
         out.append({"id": 800 + i, "token": "tokpin%04d" % (800 + i), "ct": ct, "ut": ut,
@@ -241,6 +246,10 @@ def pinned_cases(net=NET):
     add("blackhole", 2, 0, 1, "last")
     add("mute", 2, 2, 2, "first")
     add("talkhang", 1, 2, 1, "first")
+    # a command that dies (killed by a signal) or fails (exit status 3): reported under its name, the others unharmed
+    add("dies", 1, 0, None, "mid")
+    add("dies-segv", 1, 2, 1, "first")
+    add("exits", 1, 0, 2, "last")
     return out
 
 
@@ -273,7 +282,8 @@ def run_case(exe, shim, helper, case, scratch, hard_timeout=None):
             hard_timeout = expected_wall(case) + 4.0 + 1.0     # the bound, the slack, and 1 s more
     script = ";".join("%s=%s" % (a, "hang" if kd == "hang" else "refuse:0") for a, kd in case["hosts"]
                       if kd in ("hang", "refuse"))
-    words = ",".join(("exec:" + a) if kd in ("exec", "chatty") + TEARDOWN_KINDS else a for a, kd in case["hosts"])
+    words = ",".join(("exec:" + a) if kd in ("exec", "chatty", "dies", "exits") + TEARDOWN_KINDS else a
+                     for a, kd in case["hosts"])
     argv = [exe, "-R", "rsh", "-t", str(case["ct"]), "-f", str(case["fanout"])]
     if case["ut"] > 0:
         argv += ["-u", str(case["ut"])]
@@ -297,7 +307,8 @@ def run_case(exe, shim, helper, case, scratch, hard_timeout=None):
 # connect timeout ends the retries (repaired xrcmd.c: an interrupted back-off sleep is the expired timeout)
 REPORT = {"hang": (": connect: timed out",), "blackhole": (": connect: timed out",), "mute": (": read: protocol failure: timed out",),
           "refuse": (": connect: Connection refused", ": connect: timed out"), "talkhang": (": command timeout",),
-          "chatty": (": command timeout",), "immortal": (": command timeout",)}
+          "chatty": (": command timeout",), "immortal": (": command timeout",),
+          "dies": (": ... killed by signal N",), "exits": (": ... exited with exit code 3",)}
 
 
 def judge(case, r, peer, slack):
@@ -344,7 +355,7 @@ def judge(case, r, peer, slack):
         else:
             if kd == "talkhang" and "%s: first-%s" % (a, a) not in outl:
                 fun.append(("real:output-lost", "%s: the line sent before the hang was not relayed" % a))
-            if kd == "chatty" and "%s: x-%s" % (a, a) not in outl:
+            if kd in ("chatty", "dies", "exits") and "%s: x-%s" % (a, a) not in outl:
                 fun.append(("real:output-lost", "%s: nothing of what it printed before the deadline was relayed" % a))
             want = " | ".join(a + w for w in REPORT[kd])
             # the property: reported on stderr under its own name -- any line with pdsh's prefix that names the
